@@ -110,4 +110,7 @@ theorem auth_sys_squashed (ms mg : Nat) (c : Option IP) (es : List AllowEntry) (
   unfold validateAuth
   simp [hg, hp, h]
 
+/-- regenerated from the source on every run: HandleCall copies the squashed identity into the request context unconditionally (every flavor) -/
+theorem gen_identity_applied : Gen.handleCallAppliesIdentity = true := by decide
+
 end Props.C10
